@@ -1,7 +1,7 @@
 (* C05: the composed theorem — the model of TimeTriggeredPlanValidator._validate returns VALID exactly for the plans
    valid under the reference temporal semantics — and C04: on instantaneous plans with distinct start times the
    time-triggered model agrees with the sequential validator model. *)
-From Coq Require Import List ZArith NArith QArith Qcanon Bool Lia Lra Lqa Permutation.
+From Coq Require Import List ZArith NArith QArith Qcanon Bool Lia Lqa Permutation.
 Import ListNotations.
 Require Import UPV.Core.Expr UPV.Core.Eval UPV.Core.Interp UPV.Planning.Problem UPV.Planning.Sem.
 Require Import UPV.Planning.Temporal UPV.Planning.TTValidate.
